@@ -1,6 +1,7 @@
 package main
 
 import (
+	"fmt"
 	"math/rand"
 )
 
@@ -117,6 +118,33 @@ func genC04(out, tier string, rng *rand.Rand) {
 								prog = append(prog, probes...)
 								tasks = append(tasks, Task{mk, op, prog, k0+k1+k2+k3 != 0})
 							}
+						}
+					}
+				}
+			}
+		}
+	}
+	// re-uploads of the bytes the object already holds, with the matching MD5 declared (what a client's
+	// retry of a create-if-absent upload looks like): a failed precondition is a failed precondition
+	for _, mk := range stores() {
+		for state := 1; state < 4; state++ {
+			cur := []byte("v1")
+			if state == 3 {
+				cur = []byte("v2")
+			}
+			cr := fmt.Sprintf("bytes 0-%d/%d", len(cur)-1, len(cur))
+			for k0 := 0; k0 < 6; k0++ {
+				for k1 := 0; k1 < 4; k1 += 3 {
+					for k2 := 0; k2 < 4; k2++ {
+						cp := [4]CParam{condValue(k0, 0, c04Bucket, "obj"), condValue(k1, 1, c04Bucket, "obj"), condValue(k2, 2, c04Bucket, "obj"), Raw("")}
+						for _, op := range [][]Req{
+							{{Kind: "upload_multipart", B: c04Bucket, Up: &UpMeta{Name: "obj", CType: "text/new", Md5: 1}, Data: cur, CP: cp}},
+							{{Kind: "resumable_init", B: c04Bucket, Up: &UpMeta{Name: "obj", CType: "text/new", Md5: 1}, Data: cur, CP: cp},
+								{Kind: "resumable_put", B: c04Bucket, ID: "#0", CRange: &cr, Data: cur}, {Kind: "resumable_put", B: c04Bucket, ID: "#0", CRange: &cr, Data: cur}},
+						} {
+							prog := append(append([]Req{}, c04Setup(state)...), op...)
+							prog = append(prog, probes...)
+							tasks = append(tasks, Task{mk, "same-bytes-retry", prog, k0+k1+k2 != 0})
 						}
 					}
 				}
